@@ -332,6 +332,18 @@ func c20Returns(drv *core.Driver, body []jr.Dir, cfg c20Cfg) (string, string, *c
 				}
 			}
 		}
+		// instalments generated from @accrue annotations are ordinary bookings
+		for _, ps := range l.Postings {
+			if ps.Gen != "accrual" || ps.Date.Before(p.S) || ps.Date.After(p.E) || !ps.Date.After(prevEnd) {
+				continue
+			}
+			if cfg.ComRx != "" && !regexp.MustCompile(cfg.ComRx).MatchString(ps.Com) {
+				continue
+			}
+			if isPortfolio(ps.Acc, cfg) != isPortfolio(ps.Other, cfg) {
+				flows = true
+			}
+		}
 		v0, a0 := portfolioValues(l, cfg, prevEnd)
 		v1, a1 := portfolioValues(l, cfg, p.E)
 		if a0 || a1 {
@@ -410,6 +422,8 @@ func c20Alphabet(dates []string) []jr.Dir {
 			jr.T(d, "transfer", jr.B(accChecking, accCash, "200", "CHF")),
 			jr.T(d, "salary", jr.B(accSalary, accChecking, "500", "CHF")),
 			jr.Dir{Kind: jr.Trx, Date: d, Desc: "dividend", HasPerf: true, Perf: []string{"AAPL"}, Books: []jr.Booking{jr.B(accSalary, accCash, "7", "USD")}},
+			jr.Dir{Kind: jr.Trx, Date: d, Desc: "accrued", Books: []jr.Booking{jr.B(accCash, accFood, "30", "CHF")},
+				Accrue: &jr.Accrual{Interval: "monthly", Start: "2020-01-01", End: "2020-03-31", Acc: accChecking}},
 			jr.P(d, "USD", []string{"0.9", "0.95", "0.92"}[i%3], "CHF"),
 			jr.P(d, "AAPL", []string{"100", "110", "90"}[i%3], "USD"),
 		)
